@@ -318,6 +318,8 @@ class MTVRPEnv(RL4COEnvBase):
         curr_time = torch.zeros(batch_size, dtype=torch.float32, device=td.device)
         curr_node = torch.zeros(batch_size, dtype=torch.int64, device=td.device)
         curr_length = torch.zeros(batch_size, dtype=torch.float32, device=td.device)
+        # the last route also ends at the depot, whether or not the actions list that visit
+        actions = torch.cat((actions, torch.zeros_like(actions[:, :1])), 1)
         for ii in range(actions.size(1)):
             next_node = actions[:, ii]
             curr_loc = gather_by_index(td["locs"], curr_node)
